@@ -24,7 +24,8 @@
 (***************************************************************************)
 EXTENDS Integers, Sequences, FiniteSets, SequencesExt
 
-FqNameOrder == <<".notdef", "a", "ab", "b", "c", "zz">>
+FqNameOrder == <<".notdef", "Ab", "B", "a", "ab", "b", "c", "d01", "d02", "d03", "d04", "d05", "d06", "d07", "d08", "d09",
+                 "d10", "d11", "d12", "d13", "d14", "zz">>
 FqRank(n) == CHOOSE i \in 1..Len(FqNameOrder) : FqNameOrder[i] = n
 FqRange(s) == {s[i] : i \in 1..Len(s)}
 
